@@ -15,7 +15,7 @@ import os
 LEVEL = "model_checking"
 
 QUICK = ["quick", "calc_quick", "calc_quick2"]
-THOROUGH = ["quick", "t1", "t2", "calc_t1", "calc_t2"]
+THOROUGH = ["quick", "t1", "t2", "calc_quick", "calc_t1", "calc_t2", "calc_t3"]
 
 
 def run(ctx):
